@@ -64,3 +64,47 @@ extern "C" void h_graph()
     vcheck(0, "witness");
 #endif
 }
+
+// an expired entry (an equivalent variable that was destroyed) sits in the list before the equivalence that is removed
+extern "C" void h_expired()
+{
+    ComponentPtr ca = Component::create("a");
+    ComponentPtr cb = Component::create("b");
+    VariablePtr p = Variable::create("p");
+    VariablePtr a = Variable::create("q");
+    VariablePtr b = Variable::create("r");
+    ca->addVariable(p); cb->addVariable(a); cb->addVariable(b);
+#ifndef WHEN
+#    define WHEN 0
+#endif
+    // WHEN: the scratch variable is connected first, second or last (fixed per query: list contents stay concrete)
+    {
+        VariablePtr scratch = Variable::create("s");
+#if WHEN == 0
+        Variable::addEquivalence(p, scratch);
+        Variable::addEquivalence(p, a);
+        Variable::addEquivalence(p, b);
+#elif WHEN == 1
+        Variable::addEquivalence(p, a);
+        Variable::addEquivalence(p, scratch);
+        Variable::addEquivalence(p, b);
+#else
+        Variable::addEquivalence(p, a);
+        Variable::addEquivalence(p, b);
+        Variable::addEquivalence(p, scratch);
+#endif
+    } // scratch is destroyed here: p keeps an expired entry
+    bool removeA = vin(0, 1) != 0;
+    bool ok = removeA ? Variable::removeEquivalence(p, a) : Variable::removeEquivalence(p, b);
+    vcheck(ok, "removing an existing equivalence succeeds");
+    VariablePtr gone = removeA ? a : b;
+    VariablePtr kept = removeA ? b : a;
+    vcheck(!p->hasEquivalentVariable(gone, true) && !gone->hasEquivalentVariable(p, true), "a removed equivalence is gone in both directions");
+    vcheck(p->hasEquivalentVariable(kept, true) && kept->hasEquivalentVariable(p, true), "the other equivalence is still there in both directions");
+    vcheck(areEquivalentVariables(p, kept) && !areEquivalentVariables(p, gone) && !areEquivalentVariables(a, b), "areEquivalentVariables follows the remaining graph");
+    vcheck(p->equivalentVariableCount() == 1 && p->equivalentVariable(0) == kept, "the live equivalence list is exactly the remaining variable");
+    NO_UNCAUGHT();
+#ifdef WITNESS
+    vcheck(0, "witness");
+#endif
+}
